@@ -411,7 +411,7 @@ static int session_main(int argc, char **argv) {
         if (N > 0) {
             if (!strcmp(final_, "b")) {
                 /* blocking drain; recon polled in between so that a full recon pool cannot stall the pipe */
-                while (!got_eos_pkt && !err_get_packet) {
+                while (!got_eos_pkt && !err_get_packet && npk < N) {
                     if (recon_on) { if (vs_active()) vs_quiesce(); poll_recon(); }
                     if (wait_packet() < 0) break;
                     if (teardown_at >= N + 2 && npk >= teardown_at - (N + 2) + 1) { torn = 1; break; }
